@@ -710,12 +710,46 @@ def compare(res, projection):
     return out
 
 
+def readable(req, ans):
+    """a human-readable form of one request / answer pair for the evidence samples"""
+    f = req.split(' ')
+    try:
+        if f[0] == 'compile':
+            a = ans.split(' ')
+            return dict(template=txt(f[2])[:500], implementation=(a[0] + ': ' + txt(a[1])[:300]) if len(a) > 1 else ans)
+        if f[0] == 'ast':
+            return dict(template=txt(f[1])[:500], syntax_tree=ans[:300])
+        if f[0] == 'sub':
+            a = ans.split(' ')
+            return dict(parser=f[1], input=txt(f[2])[:300], implementation=' '.join(a[:2]) + (' ' + repr(txt(a[2])) if len(a) > 2 else ''))
+        if f[0] == 'html':
+            a = ans.split(' ')
+            return dict(mode=f[1], pieces=[('' if p == 'e' else txt(p)) for p in f[2].split(',')] if f[2] != '-' else [], schedule=f[3],
+                        result=a[0], sink=txt(a[1])[:200] if len(a) > 1 else '')
+        if f[0] == 'render':
+            a = ans.split(' ')
+            return dict(program=describe_render_req(req)[:1500], compiled_output=(a[0] + ' ' + repr(txt(a[1]))[:300]) if len(a) > 1 else ans)
+        if f[0] == 'script':
+            ops = [] if f[6] == '-' else [o.split(':')[0] + ' ' + txt(o.split(':')[1]) for o in f[6].split(';')]
+            pa = parse_answer(ans)
+            return dict(script=ops, prior_out_files=0 if f[5] == '-' else len(f[5].split(',')),
+                        stdout=txt(pa.get('stdout', '-')).split('\n')[:8], files_after=len(pa.get('files', '').split(',')),
+                        physical_writes=len([x for x in pa.get('writes', '').split(',') if x]))
+        if f[0] == 'mimearg':
+            return dict(feature=f[1], suffix=txt(f[2]), printed=txt(ans))
+        if f[0] == 'sassname':
+            return dict(query=txt(f[3]), known_identifiers=0 if f[2] == '-' else len(f[2].split(',')), result=ans[:80])
+    except Exception:
+        pass
+    return dict(request=req[:400], implementation=ans[:300])
+
+
 def sample_reqs(res, k=6):
     n = len(res['req'])
     if n == 0:
         return []
     step = max(1, n // k)
-    return [dict(request=res['req'][i][:600], implementation=res['impl'][i][:600]) for i in range(0, n, step)][:k]
+    return [readable(res['req'][i], res['impl'][i]) for i in range(min(1, n - 1), n, step)][:k]
 
 
 def describe_render_req(req):
